@@ -304,30 +304,48 @@ def register(T, repo):
         post_objs=[('parser', P_self, post_parser)]))
 
     # ---- key-value lists (assumed contracts, bodies not verified yet)
-    def KeyValS(src):
+    # hull of the argument: inside a handler (ghost lo/hi of H) the values
+    # consist of tokens of the argument and of braces placed at positions of
+    # such tokens -- assumed together with the rest of these contracts
+    def kv_ghost(ex, st, mode, vals):
+        g = parser_ghost(ex, st, mode, vals)
+        if mode == 'proof':
+            g['lo'], g['hi'] = fresh_int('lo'), fresh_int('hi')
+        elif 'lo' in st.ghost and 'hi' in st.ghost:
+            g['lo'], g['hi'] = st.ghost['lo'], st.ghost['hi']
+        else:
+            g['lo'], g['hi'] = 0, zint(g['src'].ln) - 1
+        return g
+
+    def kv_tok(G):
+        return tm.TokS(lambda ex, t: And(
+            tm.ok(ex, t, G['src']), zint(G['lo']) <= zint(t.fields['pos']),
+            zint(t.fields['pos']) <= zint(G['hi'])), name='kv')
+
+    def KeyValS(G):
         return ListS(TupleS(StrS(name='key'),
-                            OptS(tm.DocList(src, None, None, 'val'))),
+                            OptS(ListS(kv_tok(G), None, 'val'))),
                      None, 'keyvals')
     T.add(FContract(
-        PAR + 'parse_keyvals_list', ghosts=parser_ghost,
+        PAR + 'parse_keyvals_list', ghosts=kv_ghost,
         params=lambda G: {'self': ParserS(G['src']),
-                          'tokens': tm.DocList(G['src'])},
-        result=lambda A: KeyValS(A['src']),
+                          'tokens': ListS(kv_tok(G), None, 'tokens')},
+        result=lambda A: KeyValS(A),
         post_objs=[('parser', P_self, post_parser)]))
     T.add(FContract(
-        PAR + 'expand_keyvals', ghosts=parser_ghost,
+        PAR + 'expand_keyvals', ghosts=kv_ghost,
         params=lambda G: {'self': ParserS(G['src']),
-                          'keyvals': KeyValS(G['src'])},
+                          'keyvals': KeyValS(G)},
         result=lambda A: ListS(TupleS(StrS(name='key'),
                                       OptS(StrS(name='val'))), None, 'kv'),
         post_objs=[('parser', P_self, post_parser)]))
     from pyvc.contracts import DictS as _DictS
     T.add(FContract(
-        PAR + 'parse_keyvals_dict', ghosts=parser_ghost,
+        PAR + 'parse_keyvals_dict', ghosts=kv_ghost,
         params=lambda G: {'self': ParserS(G['src']),
-                          'tokens': tm.DocList(G['src'])},
-        result=lambda A: _DictS(OptS(tm.DocList(A['src'], None, None,
-                                                'val')), 'keyvals'),
+                          'tokens': ListS(kv_tok(G), None, 'tokens')},
+        result=lambda A: _DictS(OptS(ListS(kv_tok(A), None, 'val')),
+                                'keyvals'),
         post_objs=[('parser', P_self, post_parser)]))
     # module initialisation (assumed, X): returns the module's inject_tokens
     T.add(FContract(
@@ -754,6 +772,31 @@ def register(T, repo):
     lp = c.loop(0)
     lp.shapes['main'] = lambda E: ListS(tm.TokS(lambda ex, t: tm.parse_out(
         ex, t, E['src']), name='pr'), None, 'main')
+
+    # ------------------------------------------------ \\item label generators
+    # Parser.expand_item calls next() on them without a default: a label
+    # generator never ends (C07: no StopIteration) -- `no_return`: every path
+    # through the generator body stays in a loop; yielded values are strings
+    GENS = ['yalafi.parameters.Parameters.init_environments.<locals>.'
+            'labs_enumerate',
+            'yalafi.parameters.Parameters.init_environments.<locals>.'
+            'labs_itemize',
+            PAR + '__init__.<locals>.labs_default']
+    T.label_generators = GENS
+    for q in GENS:
+        if q not in repo.funcs:
+            continue
+        c = T.add(FContract(
+            q, params={'level': IntS(lambda n: n >= 0, name='level')},
+            free={'self': cm.ParmsS(), 'parms': cm.ParmsS()},
+            no_return=True))
+        c.yields = StrS(name='label')
+        for k in range(len(repo.funcs[q].loop_nodes())):
+            c.loop(k).invs.append(('true', lambda E: True))
+        if q.endswith('labs_enumerate'):
+            # the running letter of nested lists is one character
+            c.loop(1).invs.append(('letter', lambda E: zint(seq_len(
+                E['c'])) == 1 if 'c' in E and sym.is_str(E['c']) else True))
 
     # ---------------------------------------------------- init_extractions
     c = T.add(FContract(
